@@ -62,7 +62,9 @@ fn abstract_step(l: &Ledger, st: &Step, relax_reason: &BTreeSet<usize>) -> Strin
     for e in &st.events {
         match e {
             Ev::Output(b) => evs.push_str(&format!(" out({})", crate::crypto::hex(&canon_packet(l, b)))),
-            Ev::Timer(id, d) => evs.push_str(&format!(" timer({},{})", canon_id(l, id), d)),
+            // which of several requests with the same earliest deadline is named is a free choice (C11 checks
+            // that the named one is among them): compare the remaining time only
+            Ev::Timer(_, d) => evs.push_str(&format!(" timer({})", d)),
             Ev::Retry(id) => evs.push_str(&format!(" retry({})", canon_id(l, id))),
             Ev::Failed(id, w) => {
                 let k = l.tx_any_gen(id).map(|t| t.k).unwrap_or(usize::MAX);
@@ -75,7 +77,11 @@ fn abstract_step(l: &Ledger, st: &Step, relax_reason: &BTreeSet<usize>) -> Strin
             Ev::Received(m) => evs.push_str(&format!(" received({},{},{:x},{:04x?})", canon_id(l, &m.id), m.class, m.method, m.attr_types)),
         }
     }
-    format!("t={} {} -> {}{}", st.t, call, res, evs)
+    // the order of the events of one call is not part of any property (except that the timer notification
+    // comes last, which C11 checks): compare them as a multiset
+    let mut parts: Vec<&str> = evs.split(' ').filter(|x| !x.is_empty()).collect();
+    parts.sort();
+    format!("t={} {} -> {} {}", st.t, call, res, parts.join(" "))
 }
 
 pub fn rejection_kind(l: &Ledger, st: &Step) -> &'static str {
